@@ -395,6 +395,16 @@ func genKv(r *rand.Rand, tier string) kvInput {
 		case x == 2 && !exists["s1.c2"]:
 			in.Ops = append(in.Ops, Step{Kind: "create", Coll: "s1.c2", Handle: r.Intn(in.Handles), Clock: next()})
 			exists["s1.c2"] = true
+		case x == 23:
+			// creating what exists already - the default collection too - is refused and changes nothing; the handle
+			// goes on addressing the collections it addressed before
+			if !exists["s1.c2"] && r.Intn(2) == 0 {
+				in.Ops = append(in.Ops, Step{Kind: "create", Coll: "s1.c2", Handle: r.Intn(in.Handles), Clock: next()})
+				exists["s1.c2"] = true
+			}
+			hh := r.Intn(in.Handles)
+			in.Ops = append(in.Ops, Step{Kind: "create", Coll: pick(r, []string{"_default._default", "_default._default", pick(r, live)}), Handle: hh, Clock: next()})
+			in.Ops = append(in.Ops, Step{Kind: "kv", Coll: "_default._default", Key: pick(r, hot), Handle: hh, Op: genKOp(r), Clock: next()})
 		case x == 3 || x == 8:
 			in.Ops = append(in.Ops, Step{Kind: "expire", Clock: next()})
 		case x >= 11 && x <= 14:
@@ -626,6 +636,20 @@ func genMotif(r *rand.Rand, m int, in *kvInput, exists map[string]bool, hot []st
 		}
 		kv(inserter())
 		kv(read())
+		if r.Intn(2) == 0 {
+			// deleted, written again by a call that asks no questions, then a call that insists there be nothing
+			kv(deleter())
+			switch r.Intn(3) {
+			case 0:
+				kv(&KOp{Kind: "Set", Val: sp(pick(r, jsonBodies))})
+			case 1:
+				kv(&KOp{Kind: "SetRaw", Val: sp(pick(r, rawBodies))})
+			default:
+				kv(&KOp{Kind: "Incr", Amt: 1, Deflt: 7})
+			}
+			kv(&KOp{Kind: "WriteCas", CasMode: "zero", Val: sp(pick(r, jsonBodies)), AddOnly: r.Intn(2) == 0})
+			kv(read())
+		}
 		if r.Intn(2) == 0 {
 			kv(deleter())
 			kv(bodyWrite())
@@ -896,6 +920,8 @@ func genMotif(r *rand.Rand, m int, in *kvInput, exists map[string]bool, hot []st
 			{`{"a":1,"b":{"c":2}}`, []string{"a.z", "b.c", "b.c.d", "new.deep"}},
 			{`{"a":{"":7},"":{"a":1}}`, []string{"a.", ".a", "b..c", "a"}},
 			{`{"a":{"b":null},"n":null}`, []string{"a.b.c", "a.b", "n.x", "n"}},
+			{`{"a":10}`, []string{"a", "a", "b", "a.z"}}, // eight bytes
+			{`{"b":{}}`, []string{"b", "b.c", "b", "a"}}, // eight bytes
 		}
 		sh := shapes[r.Intn(len(shapes))]
 		kv(&KOp{Kind: "Set", Val: sp(sh.body)})
